@@ -33,7 +33,10 @@ def obligations():
         KModelOb('O15.3-samples-count', 'sampling', 'samples_count', 'estimate_samples_count: 0 when at most last-N blocks are missing, otherwise within '
                  '[1, blocks - last_n], for every k (also NaN / infinite) and lambda', ex_sampling, 'all u64 / f64 / u32 inputs', cuts=CUTS,
                  timeout=900, mem_gb=8, min_covers=1),
-        KModelOb('O15.1-sample-blocks', 'sampling', 'sample_blocks_wellformed', 'sample_blocks (real text incl. FlyClientPDF): boundary in (start TD, last TD]; '
+        KModelOb('O15.1-sample-blocks-t', 'sampling', 'sample_blocks_t', 'as O15.1-sample-blocks with up to 3 samples', ex_sampling, 'at most last_n+3 missing blocks',
+                 cuts=CUTS, timeout=3300, mem_gb=16, min_covers=1, weight=5, tiers=('thorough',)),
+        KModelOb('O15.1-sample-blocks', 'sampling', 'sample_blocks_q', 'sample_blocks (real text incl. FlyClientPDF): boundary in (start TD, last TD]; '
                  'sampled difficulties strictly increasing, unique, inside [start TD, boundary); count within [1, blocks - last_n]', ex_sampling,
-                 'last_n in 1..3, at most last_n+3 missing blocks, arbitrary 32-bit start difficulty, difficulty range < 2^16', cuts=CUTS, timeout=1500, mem_gb=10, min_covers=1, weight=3),
+                 'last_n in 1..3, last_n+1 missing blocks (one sample), arbitrary 32-bit start difficulty, difficulty range < 2^16', cuts=CUTS, timeout=1500, mem_gb=10,
+                 min_covers=1, weight=3, tiers=('quick',)),
     ]
